@@ -567,7 +567,7 @@ func (C17) pure(tp *tape.Tape) core.Result {
 	}
 	for i := 0; i < nst; i++ {
 		var src string
-		switch tp.Draw(11) {
+		switch tp.Draw(12) {
 		case 10: // a program is free to rebind a built-in's name; the other built-ins must not care
 			src = []string{
 				"fromto = (a, b) -> while a <= b {\nyield a\na = a + 1\n}",
@@ -624,6 +624,10 @@ func (C17) pure(tp *tape.Tape) core.Result {
 			continue
 		case 2:
 			src = fmt.Sprintf("for i <- fromto(%s, %s) {\nwrite(toa(i) + \",\")\n}", calcInt(int64(tp.Draw(16))-5), calcInt(int64(tp.Draw(16))-5))
+			if tp.Draw(3) == 0 { // fractional and float bounds: a, a+1, ... while below b
+				fb := []string{"0", "2.5", "(0 - 2.5)", "0.5", "3.0", "3", "(0 - 0.5)", "1.0", "2.999"}
+				src = fmt.Sprintf("for i <- fromto(%s, %s) {\nwrite(toa(i) + \",\")\n}", fb[tp.Draw(len(fb))], fb[tp.Draw(len(fb))])
+			}
 			r.Inc("P.fromto", 1)
 		case 3:
 			src = "for e <- elems(" + []string{"[]", "[1, 2, 3]", "\"\"", "\"abc\"", "[[1], \"x\", true]", "[1.5]"}[tp.Draw(6)] + ") {\nwrite(toa(e) + \",\")\n}"
@@ -639,11 +643,21 @@ func (C17) pure(tp *tape.Tape) core.Result {
 				"for e <- fromto(\"a\", 3) {\nwrite(e)\n}", "for e <- fromto(1, \"b\") {\nwrite(e)\n}", "aton(\"zz\")", "aton(\"\")", "aton(\"1 \")", "for e <- elems(nosuch) {\nwrite(e)\n}"}[tp.Draw(11)]
 			r.Inc("P.wrong_arg_type", 1)
 		case 7:
-			src = "aton(\"" + []string{"0", "007", "-12", "+5", "1e3", "0x10", "1_000", ".5", "5.", "inf", "nan", "9223372036854775807", "9223372036854775808", "-9223372036854775808"}[tp.Draw(14)] + "\")"
+			src = "aton(\"" + []string{"0", "007", "-12", "+5", "1e3", "0x10", "1_000", ".5", "5.", "inf", "nan", "9223372036854775807", "9223372036854775808", "-9223372036854775808",
+				"-", "+", ".", " ", "/", "a", "7", "e", "1e", "-.", "--1", " 1", "1e+06", "1E3", "0.0001e-2", "１"}[tp.Draw(30)] + "\")"
 			r.Inc("P.aton_forms", 1)
 		case 8: // fromto/elems outside a for loop just run
 			src = []string{"fromto(0, 3)", "elems([1, 2])", "indices(\"ab\")", "fromto(3, 0)"}[tp.Draw(4)]
 			r.Inc("P.generator_called_outside_for", 1)
+		case 9: // a rendering that is kept while other values are rendered and written, then looked at again
+			if _, _, stop := step("gk = toa(" + drawValueExpr(tp, 2) + ")"); stop {
+				goto done
+			}
+			if _, _, stop := step("write(toa(" + drawValueExpr(tp, 2) + "))"); stop {
+				goto done
+			}
+			src = "write(gk + \"|\" + toa(#gk))"
+			r.Inc("P.toa_result_kept", 1)
 		default:
 			src = "toa(" + drawValueExpr(tp, 2) + ")"
 			r.Inc("P.toa", 1)
